@@ -148,7 +148,10 @@ pub fn replay_dig_file(path: &str, seed: u64) -> J {
                 let source = if t["hok"].as_bool().unwrap() {
                     // (kept verbatim: CR LF line ends and a non-ASCII comment in some of them)
                     let nl = if (i + renaming) % 3 == 1 { "\r\n" } else { "\n" };
-                    format!("{}{nl}{}{nl}# source {}{}{nl}", header.join(" "), vec!["1"; header.len()].join(" "), t["src"], if i % 4 == 2 { " é" } else { "" })
+                    // (every fifth document: all its tests begin with the same line - a blank or a white-space-only one - before
+                    // their headers, which differ)
+                    let lead = match (i + 2 * renaming) % 10 { 3 => nl.to_string(), 8 => format!(" \t{nl}{nl}"), _ => String::new() };
+                    format!("{lead}{}{nl}{}{nl}# source {}{}{nl}", header.join(" "), vec!["1"; header.len()].join(" "), t["src"], if i % 4 == 2 { " é" } else { "" })
                 } else {
                     "A B".to_string()
                 };
